@@ -134,7 +134,7 @@ class IndxIO(object):
 
         # We iterate over entries keys twice, let's make a copy of it.
         list_index = list(entries.keys())
-        index = numpy.array(list_index)
+        index = numpy.array([[int(coord) for coord in coords] for coords in list_index])
         lengths = numpy.array(
             [len(entries[coords]) for coords in list_index], dtype=dtype
         )
